@@ -398,7 +398,25 @@ impl Parser {
         let mut values = vec![];
 
         for value_node in input.children() {
-            values.push(Self::value(value_node)?);
+            let value_span = value_node.as_span();
+            let value = Self::value(value_node)?;
+
+            // a call that returns nothing leaves no value behind that could become an element
+            if let Ok(TypeLayout::Void) = value
+                .for_type(&TypecheckFlags::use_class(
+                    input.user_data().get_type_of_executing_class(),
+                ))
+                .as_ref()
+                .map(|ty| ty.disregard_distractors(true))
+            {
+                return Err(vec![new_err(
+                    value_span,
+                    &input.user_data().get_source_file_name(),
+                    "this function call returns void, which cannot be a list element".to_owned(),
+                )]);
+            }
+
+            values.push(value);
         }
 
         let list = List { values };
